@@ -84,9 +84,12 @@ def run(ctx, prog):
         inc = bool(res['complete'])
         probs = res['one-install'] + res['selected'] + res['old-entry'] + res['key']
         gl, ents, other = cat.entries(prog, scalar)
-        for s_ in walk(gl.body):
-            if s_.get('k') == 'local' and s_.get('static'):
-                probs.append('get_list_mms uses a static local')
+        for g_ in own.reachable_from(prog, [gl]).values():
+            for s_ in walk(g_.body):
+                if s_.get('k') == 'decl':
+                    for v_ in s_['vars']:
+                        if v_.get('static') and not terms.const_object_type(v_.get('t', '')):
+                            probs.append('%s keeps the mutable static local `%s`: candidates could be cached or shared between calls' % (g_.n, v_['n']))
         ok = (not probs) if not inc else (False if probs else None)
         ctx.ob('C12.H2', 'fresh-instance|' + sc, ok, im.where, '; '.join(probs[:2]) or 'not decided: ' + '; '.join(res['complete'][:2]),
                sample='each of %d returning paths installs exactly one of the %d objects created in the same call, under the handle, replacing and deleting the previous one, and selects it' % (
